@@ -8,6 +8,7 @@ package main
 import (
 	"fmt"
 	"go/ast"
+	"regexp"
 	"strings"
 )
 
@@ -24,106 +25,125 @@ func stmtIndex(fd *ast.FuncDecl, marker string) int {
 func clientFacts() string {
 	rel := "client/logclient.go"
 	var sb strings.Builder
+	has := func(text, re string) bool { return regexp.MustCompile(re).MatchString(text) }
 
-	// --- addChainWithRetry
-	fd := mustFunc(rel, "LogClient.addChainWithRetry")
-	post := stmtIndex(fd, "c.PostAndParseWithRetry(ctx, path, &req, &resp)")
-	ds := stmtIndex(fd, "tls.Unmarshal(resp.Signature, &ds)")
-	ext := stmtIndex(fd, "base64.StdEncoding.DecodeString(resp.Extensions)")
-	cp := stmtIndex(fd, "copy(logID.KeyID[:], resp.ID)")
-	ver := stmtIndex(fd, "c.VerifySCTSignature(*sct, ctype, chain)")
-	ret := stmtIndex(fd, "return sct, nil")
-	if post < 0 || ds < 0 || ext < 0 || cp < 0 || ver < 0 || ret < 0 || !(post < ds && ds < ver && ext < ver && cp < ver && ver < ret) || ret != len(fd.Body.List)-1 {
-		panic(bail{rel + ": addChainWithRetry no longer has the shape post → parse signature/extensions/id → VerifySCTSignature → return sct"})
+	// --- addChainWithRetry, seen through renames, hoisted reads and same-file helpers (flatSrc splices helper bodies in)
+	fa := flatSrc(rel, "addChainWithRetry", 2)
+	w := rel + ": addChainWithRetry"
+	post := idxOf(fa, "PostAndParseWithRetry(", w)
+	um := mustMatch(`tls\.Unmarshal\((\w+)\.Signature,&(\w+)\)`, fa, w+": the response's signature is no longer parsed with tls.Unmarshal")
+	respV, dsV := um[1], um[2]
+	ds := strings.Index(fa, um[0])
+	ex := mustMatch(`(\w+),err:=base64\.StdEncoding\.DecodeString\(`+respV+`\.Extensions\)`, fa, w+": extensions are no longer base64-decoded")
+	ver := idxOf(fa, "VerifySCTSignature(", w)
+	lit := mustMatch(`(\w+):=&ct\.SignedCertificateTimestamp\{([^}]*)\}`, fa, w+": no SCT literal")
+	sctV := lit[1]
+	litAt := strings.Index(fa, lit[0])
+	if !strings.HasSuffix(fa, "return"+sctV+",nil;") {
+		panic(bail{w + " does not end in returning the SCT it built"})
 	}
-	if is, ok := fd.Body.List[ver].(*ast.IfStmt); !ok || is.Init == nil || src(is.Cond) != "err != nil" || !returnsNonNilError(is.Body) {
-		panic(bail{rel + ": addChainWithRetry does not return the error of VerifySCTSignature"})
+	ret := len(fa) - len("return"+sctV+",nil;")
+	if !(post < ds && ds < ver && strings.Index(fa, ex[0]) < ver && litAt < ver && ver < ret) {
+		panic(bail{w + " no longer has the order post → parse signature / extensions → build SCT → VerifySCTSignature → return"})
 	}
-	// the SCT handed back is built from the response fields and the parsed signature
-	lit := ""
-	for _, s := range fd.Body.List {
-		if strings.HasPrefix(src(s), "sct := &ct.SignedCertificateTimestamp{") {
-			lit = src(s)
+	if !has(fa[ver-40:], `VerifySCTSignature\(\*`+sctV+`,\w+,\w+\);err!=nil\{returnnil,RspError\{`) {
+		panic(bail{w + " does not return the error of VerifySCTSignature as RspError"})
+	}
+	for _, need := range []string{`SCTVersion:` + respV + `\.SCTVersion`, `LogID:\w+`, `Timestamp:` + respV + `\.Timestamp`, `Extensions:ct\.CTExtensions\(` + ex[1] + `\)`, `Signature:` + dsV + `\b`} {
+		if !has(lit[2]+",", need) {
+			panic(bail{w + ": the SCT literal no longer contains " + need})
 		}
 	}
-	for _, need := range []string{"SCTVersion: resp.SCTVersion", "LogID: logID", "Timestamp: resp.Timestamp", "Extensions: ct.CTExtensions(exts)", "Signature: ds"} {
-		if !strings.Contains(lit, need) {
-			panic(bail{rel + ": the SCT literal of addChainWithRetry no longer contains `" + need + "`"})
-		}
+	// exactly one DigitallySigned: error of tls.Unmarshal returned, and a non-empty rest refused
+	if !has(fa, `(\w+),err:=tls\.Unmarshal\(`+respV+`\.Signature,&`+dsV+`\);(if)?err!=nil\{returnnil,RspError\{`) {
+		panic(bail{w + " does not return the error of tls.Unmarshal as RspError"})
 	}
-	// id handling: (0) copied unchecked (the code as found), (1) the earlier candidate `if err := c.checkLogID(resp.ID); err != nil { return … }`,
-	// or (2) the fix c15d346: with a verifier, a PRESENT id must equal logIDForKey(c.Verifier.PubKey) and the SCT carries that key hash
+	rm := mustMatch(`(?:^|[;{}])(?:if)?(\w+),err:=tls\.Unmarshal\(`, fa, w)
+	if !has(fa, `iflen\(`+rm[1]+`\)>0\{returnnil,RspError\{`) {
+		panic(bail{w + " no longer refuses octets after the DigitallySigned"})
+	}
+	// id handling
 	idLen, idKey := false, false
 	policy := 0
-	if i := stmtIndex(fd, "c.checkLogID(resp.ID)"); i >= 0 {
-		is, ok := fd.Body.List[i].(*ast.IfStmt)
-		if !ok || is.Init == nil || src(is.Init) != "err := c.checkLogID(resp.ID)" || src(is.Cond) != "err != nil" || !returnsNonNilError(is.Body) || i > ret {
-			panic(bail{rel + ": unrecognised use of checkLogID in addChainWithRetry"})
-		}
+	switch {
+	case strings.Contains(fa, "checkLogID("):
 		cb := src(mustFunc(rel, "LogClient.checkLogID").Body)
 		idLen = strings.Contains(cb, "len(id) != sha256.Size")
 		idKey = strings.Contains(cb, "x509.MarshalPKIXPublicKey(c.Verifier.PubKey)") && strings.Contains(cb, "sha256.Sum256(der)") && strings.Contains(cb, "!bytes.Equal(want[:], id)")
-		if !idLen || !idKey {
-			panic(bail{rel + ": checkLogID no longer has the recognised body"})
+		if !idLen || !idKey || !has(fa, `iferr:=\w+\.checkLogID\(`+respV+`\.ID\);err!=nil\{returnnil,`) {
+			panic(bail{rel + ": unrecognised use of checkLogID"})
 		}
 		policy = 1
-	} else if i := stmtIndex(fd, "logIDForKey(c.Verifier.PubKey)"); i >= 0 {
-		is, ok := fd.Body.List[i].(*ast.IfStmt)
-		if !ok || is.Init != nil || src(is.Cond) != "c.Verifier != nil" || is.Else != nil || !(cp < i && i < ver) || len(is.Body.List) != 4 {
-			panic(bail{rel + ": unrecognised use of logIDForKey in addChainWithRetry"})
+	case strings.Contains(fa, "logIDForKey("):
+		// with a verifier: keyID := logIDForKey(key); a PRESENT id that differs is an error; the LogID is keyID.  Without: copied.
+		km := mustMatch(`(\w+),err:=logIDForKey\(\w+\.Verifier\.PubKey\)`, fa, w+": logIDForKey is not applied to the verifier's key")
+		cm := mustMatch(`iflen\(([\w.]+)\)!=0&&!bytes\.Equal\(([\w.]+),`+km[1]+`\[:\]\)\{return`, fa, w+": a present id is no longer compared with the key hash")
+		if cm[1] != cm[2] {
+			panic(bail{w + ": the id compared is not the id whose presence is tested"})
 		}
-		b := is.Body.List
-		e1, ok1 := b[1].(*ast.IfStmt)
-		e2, ok2 := b[2].(*ast.IfStmt)
-		if src(b[0]) != "keyID, err := logIDForKey(c.Verifier.PubKey)" || !ok1 || src(e1.Cond) != "err != nil" || !returnsNonNilError(e1.Body) ||
-			!ok2 || src(e2.Cond) != "len(resp.ID) != 0 && !bytes.Equal(resp.ID, keyID[:])" || !returnsNonNilError(e2.Body) || !strings.Contains(src(e2.Body), "RspError{") ||
-			src(b[3]) != "logID.KeyID = keyID" {
-			panic(bail{rel + ": the key-hash block of addChainWithRetry no longer has the recognised statements"})
+		idExpr := cm[1]
+		if idExpr != respV+".ID" && !has(fa, `\(`+respV+`\.ID\)`) {
+			panic(bail{w + ": the id checked is not the response's id"})
+		}
+		cpm := mustMatch(`copy\((\w+)\.KeyID\[:\],`+regexp.QuoteMeta(idExpr)+`\)`, fa, w+": the id is no longer copied into the LogID")
+		if !has(fa, cpm[1]+`\.KeyID=`+km[1]+`[;}]`) {
+			panic(bail{w + ": the LogID is no longer set to the key hash"})
+		}
+		guardA := has(fa, `if\w+\.Verifier!=nil\{`+regexp.QuoteMeta(km[0]))
+		guardB := has(fa, `if\w+\.Verifier==nil\{return`+cpm[1]+`,nil\};(?:«\w+».*?«/\w+»)?`+regexp.QuoteMeta(km[0]))
+		if !guardA && !guardB {
+			panic(bail{w + ": the key-hash check is not guarded by the presence of a verifier in a recognised way"})
+		}
+		if !has(fa[strings.Index(fa, km[0]):], `^`+regexp.QuoteMeta(km[0])+`;?iferr!=nil\{return`) {
+			panic(bail{w + ": the error of logIDForKey is not returned"})
 		}
 		lb := src(mustFunc(rel, "logIDForKey").Body)
-		if !strings.Contains(lb, "der, err := x509.MarshalPKIXPublicKey(pubKey)") || !strings.Contains(lb, "return sha256.Sum256(der), nil") {
+		if !strings.Contains(lb, "x509.MarshalPKIXPublicKey(") || !strings.Contains(lb, "sha256.Sum256(") {
 			panic(bail{rel + ": logIDForKey is no longer SHA-256 of MarshalPKIXPublicKey"})
 		}
 		policy = 2
-	} else if strings.Contains(src(fd.Body), "sha256.Size") || strings.Contains(src(fd.Body), "Sum256") || strings.Contains(src(fd.Body), "KeyID =") {
-		panic(bail{rel + ": addChainWithRetry handles the log ID in a way the extractor does not recognise"})
+	case strings.Contains(fa, "sha256.Size") || strings.Contains(fa, "Sum256") || strings.Contains(fa, "KeyID="):
+		panic(bail{w + " handles the log ID in a way the extractor does not recognise"})
+	default:
+		if !has(fa, `copy\(\w+\.KeyID\[:\],`+respV+`\.ID\)`) {
+			panic(bail{w + ": the id is no longer copied into the LogID"})
+		}
 	}
 	fmt.Fprintf(&sb, "/-- generated from %s func addChainWithRetry: is the length of the response's `id` compared with sha256.Size before it is copied into the SCT? -/\ndef addChainChecksIDLength : Bool := %v\n", rel, idLen)
 	fmt.Fprintf(&sb, "/-- generated from %s func addChainWithRetry: is `id` compared with the SHA-256 hash of the configured public key (checkLogID)? -/\ndef addChainChecksIDAgainstKey : Bool := %v\n", rel, idKey)
 	fmt.Fprintf(&sb, "/-- generated from %s func addChainWithRetry: how the response's `id` becomes the SCT's log ID.\n0: copied unchecked.  1: `checkLogID` (32 octets and, with a key, equal to its hash).  2: `if c.Verifier != nil { keyID := logIDForKey(key); a present id (len ≠ 0) that differs from keyID is an RspError; logID.KeyID = keyID }` — without a verifier the id is copied -/\ndef addChainIDPolicy : Nat := %d\n\n", rel, policy)
+
 	// --- GetSTH
-	fd = mustFunc(rel, "LogClient.GetSTH")
-	g := stmtIndex(fd, "c.GetAndParse(ctx, ct.GetSTHPath, nil, &resp)")
-	ts := stmtIndex(fd, "resp.ToSignedTreeHead()")
-	vs := stmtIndex(fd, "c.VerifySTHSignature(*sth)")
-	rs := stmtIndex(fd, "return sth, nil")
-	if g < 0 || ts < 0 || vs < 0 || rs < 0 || !(g < ts && ts < vs && vs < rs) || rs != len(fd.Body.List)-1 {
-		panic(bail{rel + ": GetSTH no longer has the shape get → ToSignedTreeHead → VerifySTHSignature → return sth"})
+	fg := flatSrc(rel, "GetSTH", 1)
+	w = rel + ": GetSTH"
+	g := idxOf(fg, "GetAndParse(", w)
+	tm := mustMatch(`(\w+),err:=(\w+)\.ToSignedTreeHead\(\)`, fg, w+": ToSignedTreeHead is no longer called")
+	ts := strings.Index(fg, tm[0])
+	vs := idxOf(fg, "VerifySTHSignature(*"+tm[1]+")", w)
+	if !strings.HasSuffix(fg, "return"+tm[1]+",nil;") || !(g < ts && ts < vs) {
+		panic(bail{w + " no longer has the shape get → ToSignedTreeHead → VerifySTHSignature → return sth"})
 	}
-	if is, ok := fd.Body.List[vs].(*ast.IfStmt); !ok || is.Init == nil || src(is.Cond) != "err != nil" || !returnsNonNilError(is.Body) || !strings.Contains(src(is.Body), "RspError{") {
-		panic(bail{rel + ": GetSTH does not return the error of VerifySTHSignature as RspError"})
+	if !has(fg[vs:], `^VerifySTHSignature\(\*`+tm[1]+`\);err!=nil\{returnnil,RspError\{`) || !has(fg[ts:], `^`+regexp.QuoteMeta(tm[0])+`;iferr!=nil\{returnnil,RspError\{`) {
+		panic(bail{w + " does not return the errors of ToSignedTreeHead / VerifySTHSignature as RspError"})
 	}
-	// VerifySTHSignature / VerifySCTSignature skip verification only when no verifier is configured
-	for _, fn := range []string{"LogClient.VerifySTHSignature", "LogClient.VerifySCTSignature"} {
-		f := mustFunc(rel, fn)
-		is, ok := f.Body.List[0].(*ast.IfStmt)
-		if !ok || src(is.Cond) != "c.Verifier == nil" || src(is.Body.List[len(is.Body.List)-1]) != "return nil" {
-			panic(bail{rel + ": " + fn + " no longer starts with `if c.Verifier == nil { return nil }`"})
-		}
-		for _, s := range f.Body.List[1:] {
-			if r, ok := s.(*ast.ReturnStmt); ok && src(r) == "return nil" {
-				panic(bail{rel + ": " + fn + " has a second `return nil`"})
-			}
+	// VerifySTHSignature / VerifySCTSignature skip verification exactly when no verifier is configured (either orientation of the guard)
+	for _, fn := range []string{"VerifySTHSignature", "VerifySCTSignature"} {
+		ft := flatSrc(rel, fn, 0)
+		n := len(regexp.MustCompile(`returnnil[;}]`).FindAllString(ft, -1))
+		shapeA := has(ft, `^if\w+\.Verifier==nil\{returnnil\};`)
+		shapeB := has(ft, `^if\w+\.Verifier!=nil\{`) && strings.HasSuffix(ft, "};returnnil;")
+		if n != 1 || !(shapeA || shapeB) || !strings.Contains(ft, ".Verifier."+fn+"(") {
+			panic(bail{rel + ": " + fn + " no longer skips verification exactly when c.Verifier is nil"})
 		}
 	}
 	sb.WriteString("/-- generated from " + rel + ": GetSTH and addChainWithRetry return their result only after VerifySTHSignature / VerifySCTSignature\nreturned nil, and those skip verification only when no verifier is configured -/\ndef clientVerifiesBeforeReturn : Bool := true\n\n")
 
 	// --- GetEntries
 	rel2 := "client/getentries.go"
-	fd = mustFunc(rel2, "LogClient.GetEntries")
+	fd := mustFunc(rel2, "LogClient.GetEntries")
 	ifs := findStmts(fd, func(s ast.Stmt) bool {
 		is, ok := s.(*ast.IfStmt)
-		return ok && src(is.Cond) == "x509.IsFatal(err)"
+		return ok && has(src(is.Cond), `^x509\.IsFatal\(\w+\)$`)
 	})
 	if len(ifs) != 1 {
 		panic(bail{rel2 + ": GetEntries no longer has exactly one `if x509.IsFatal(err)`"})
@@ -133,7 +153,7 @@ func clientFacts() string {
 		panic(bail{rel2 + ": GetEntries does not return an error for an undecodable entry"})
 	}
 	wraps := strings.Contains(src(body), "RspError{") && strings.Contains(src(body), "StatusCode:") && strings.Contains(src(body), "Body:")
-	if !wraps && src(body.List[len(body.List)-1]) != "return nil, err" {
+	if !wraps && !has(src(body.List[len(body.List)-1]), `^return nil, \w+$`) {
 		panic(bail{rel2 + ": unrecognised error return in GetEntries: " + src(body)})
 	}
 	fmt.Fprintf(&sb, "/-- generated from %s func GetEntries: is the failure to decode an entry of a 200 response returned as RspError (status, body)? -/\ndef getEntriesWrapsDecodeError : Bool := %v\n\n", rel2, wraps)
@@ -170,31 +190,156 @@ func clientFacts() string {
 	fmt.Fprintf(&sb, "\n/-- generated from %s func MerkleTreeLeafFromChain: is an empty chain refused before `chain[0]` is touched? -/\ndef leafFromChainGuardsEmpty : Bool := %v\n", rel4, guards)
 	sb.WriteString("/-- generated from " + rel4 + ": MerkleTreeLeafFromRawChain parses at most three certificates (fatal error = error) and\nMerkleTreeLeafFromChain takes chain[0].Raw for an X.509 entry; for a precertificate entry the issuer is chain[1], or chain[2] when\nchain[1] is a pre-issuer, and the entry is (SHA-256 of the issuer's RawSubjectPublicKeyInfo, BuildPrecertTBS(chain[0].RawTBSCertificate, preIssuer)) -/\ndef leafFromChainShape : Bool := true\n")
 
-	// --- retry statuses of PostAndParseWithRetry
+	// --- which statuses PostAndParseWithRetry sends again: the switch over the response's StatusCode, wherever it sits
+	// (the function itself or a same-file helper it calls), cases merged or chained with fallthrough
 	rel3 := "jsonclient/client.go"
-	fd = mustFunc(rel3, "JSONClient.PostAndParseWithRetry")
-	sw := findSwitch(fd, "httpRsp.StatusCode")
+	var statusSwitch *ast.SwitchStmt
+	switchFn := ""
+	var visit func(name string, depth int)
+	seenFn := map[string]bool{}
+	visit = func(name string, depth int) {
+		fd := anyFunc(rel3, name)
+		if fd == nil || seenFn[name] || depth < 0 {
+			return
+		}
+		seenFn[name] = true
+		alias := map[string]bool{}
+		ast.Inspect(fd.Body, func(n ast.Node) bool {
+			switch x := n.(type) {
+			case *ast.AssignStmt:
+				if len(x.Lhs) == 1 && len(x.Rhs) == 1 && strings.HasSuffix(src(x.Rhs[0]), ".StatusCode") {
+					alias[src(x.Lhs[0])] = true
+				}
+			case *ast.SwitchStmt:
+				tagless := false
+				if x.Tag == nil {
+					for _, c := range x.Body.List {
+						for _, k := range c.(*ast.CaseClause).List {
+							if statusAtoms(src(k), alias) != nil {
+								tagless = true
+							}
+						}
+					}
+				}
+				if tagless || x.Tag != nil && (strings.HasSuffix(src(x.Tag), ".StatusCode") || alias[src(x.Tag)]) {
+					if statusSwitch != nil && statusSwitch != x {
+						panic(bail{rel3 + ": more than one switch over a StatusCode under PostAndParseWithRetry"})
+					}
+					statusSwitch = x
+					switchFn = name
+				}
+			case *ast.CallExpr:
+				if sel, ok := x.Fun.(*ast.SelectorExpr); ok {
+					visit(sel.Sel.Name, depth-1)
+				} else if id, ok := x.Fun.(*ast.Ident); ok {
+					visit(id.Name, depth-1)
+				}
+			}
+			return true
+		})
+	}
+	// PostAndParse has no status switch; only follow helpers that are not PostAndParse itself
+	seenFn["PostAndParse"] = true
+	visit("PostAndParseWithRetry", 2)
+	if statusSwitch == nil {
+		panic(bail{rel3 + ": no switch over the response's StatusCode under PostAndParseWithRetry"})
+	}
+	hasReturn := func(b []ast.Stmt) bool {
+		found := false
+		for _, st := range b {
+			ast.Inspect(st, func(n ast.Node) bool {
+				if _, ok := n.(*ast.FuncLit); ok {
+					return false
+				}
+				if _, ok := n.(*ast.ReturnStmt); ok {
+					found = true
+				}
+				return !found
+			})
+		}
+		return found
+	}
+	// in a helper that reports "send again" through a leading bool result, a return is final only when that bool is false
+	if switchFn != "PostAndParseWithRetry" {
+		h := anyFunc(rel3, switchFn)
+		if h.Type.Results == nil || len(h.Type.Results.List) == 0 || src(h.Type.Results.List[0].Type) != "bool" {
+			panic(bail{rel3 + ": the status switch sits in helper " + switchFn + " whose first result is not a retry flag"})
+		}
+		inner := hasReturn
+		hasReturn = func(b []ast.Stmt) bool {
+			final, any := false, false
+			for _, st := range b {
+				ast.Inspect(st, func(n ast.Node) bool {
+					if _, ok := n.(*ast.FuncLit); ok {
+						return false
+					}
+					if r, ok := n.(*ast.ReturnStmt); ok && len(r.Results) > 0 {
+						any = true
+						switch src(r.Results[0]) {
+						case "false":
+							final = true
+						case "true":
+						default:
+							panic(bail{rel3 + ": " + switchFn + " returns a retry flag that is not a literal: " + src(r)})
+						}
+					}
+					return true
+				})
+			}
+			if !any {
+				return inner(b)
+			}
+			return final
+		}
+	}
 	var retry []string
 	okFinal, defErr := false, false
-	for _, c := range sw.Body.List {
+	clauses := statusSwitch.Body.List
+	for i, c := range clauses {
 		cc := c.(*ast.CaseClause)
-		if cc.List == nil {
-			defErr = returnsNonNilError(&ast.BlockStmt{List: cc.Body}) && strings.Contains(src(cc), "RspError{")
-			continue
-		}
-		for _, k := range cc.List {
-			v, ok := httpStatus[src(k)]
-			if !ok {
-				panic(bail{rel3 + ": unknown status constant " + src(k)})
-			}
-			if v == 200 {
-				okFinal = len(cc.Body) == 1 && src(cc.Body[0]) == "return httpRsp, body, nil"
+		// a body ending in fallthrough behaves like the next clause's body
+		bodyOf := cc.Body
+		for j := i; len(bodyOf) > 0; j++ {
+			if br, ok := bodyOf[len(bodyOf)-1].(*ast.BranchStmt); ok && br.Tok.String() == "fallthrough" && j+1 < len(clauses) {
+				bodyOf = append(append([]ast.Stmt{}, bodyOf[:len(bodyOf)-1]...), clauses[j+1].(*ast.CaseClause).Body...)
 				continue
 			}
-			for _, s := range cc.Body {
-				if _, isRet := s.(*ast.ReturnStmt); isRet {
-					panic(bail{rel3 + ": a non-200 case of PostAndParseWithRetry returns"})
+			break
+		}
+		if cc.List == nil {
+			defErr = hasReturn(bodyOf) && strings.Contains(src(cc), "RspError{")
+			continue
+		}
+		var consts []string
+		for _, k := range cc.List {
+			if statusSwitch.Tag == nil {
+				at := statusAtoms(src(k), nil)
+				if at == nil {
+					consts = nil // a case about something else (the error): not a status case
+					break
 				}
+				consts = append(consts, at...)
+			} else {
+				consts = append(consts, src(k))
+			}
+		}
+		if statusSwitch.Tag == nil && consts == nil {
+			if i == len(clauses)-1 {
+				panic(bail{rel3 + ": the last case of the tagless switch is not the default"})
+			}
+			continue
+		}
+		for _, k := range consts {
+			v, ok := httpStatus[k]
+			if !ok {
+				panic(bail{rel3 + ": unknown status constant " + k})
+			}
+			if v == 200 {
+				okFinal = hasReturn(bodyOf)
+				continue
+			}
+			if hasReturn(bodyOf) {
+				continue // a final status handled like the default
 			}
 			retry = append(retry, fmt.Sprint(v))
 		}
@@ -202,8 +347,22 @@ func clientFacts() string {
 	if !okFinal || !defErr {
 		panic(bail{rel3 + ": PostAndParseWithRetry: 200 no longer returns the response or the default no longer returns RspError"})
 	}
+	sortStrings(retry)
 	fmt.Fprintf(&sb, "/-- generated from %s func PostAndParseWithRetry: statuses after which the request is sent again (every other non-200 status is a final RspError) -/\ndef postRetryStatuses : List Nat := [%s]\n", rel3, strings.Join(retry, ", "))
 	return sb.String()
+}
+
+// statusAtoms: the constants of a condition that is a disjunction of `<x>.StatusCode == http.StatusY` (nil otherwise).
+func statusAtoms(cond string, alias map[string]bool) []string {
+	var out []string
+	for _, part := range strings.Split(cond, "||") {
+		m := regexp.MustCompile(`^\s*\(?\s*([\w.]+) == (http\.\w+)\s*\)?\s*$`).FindStringSubmatch(part)
+		if m == nil || !(strings.HasSuffix(m[1], ".StatusCode") || alias[m[1]]) {
+			return nil
+		}
+		out = append(out, m[2])
+	}
+	return out
 }
 
 func init() {
